@@ -35,7 +35,8 @@ CLAUSE = {1: "output temperatures not strictly descending / ends moved / column 
           5: "H_net_np half-way between two output rows is not the running minimum of the input curve",
           6: "the ends of H_net_np do not keep Qh / Qc",
           7: "a load profile is not monotone", 8: "a load profile does not start at zero at the pinch side",
-          9: "a load profile does not end at Qh / Qc"}
+          9: "a load profile does not end at Qh / Qc",
+          14: "(input not Robust) H_net_np at an output row is further than 4 tol from the running minimum of the input curve"}
 
 
 # ------------------------------------------------------------------------------------------ implementation
@@ -238,6 +239,15 @@ CORPUS = [
     # five pockets on one side
     dict(T=[float(400 - 10 * i) for i in range(13)], H=[90.0, 95.0, 70.0, 75.0, 50.0, 55.0, 30.0, 35.0, 10.0, 15.0, 5.0, 8.0, 0.0]),
     dict(T=[10.0], H=[0.0]), dict(T=[10.0, 0.0], H=[5.0, 0.0]), dict(T=[10.0, 0.0], H=[0.0, 5.0]),
+    # D56 (repaired by 90f934d): below the pinch the pocket entered at level 20 (T = 165) closes 6e-9 K from the row at
+    # T = 174.99975, so no breakpoint is inserted; the exit row at T = 174.9995 (H = 39.999) must be flattened all the same.
+    # Not Robust (a crossing within tol of a row) and not fragile: judged by model = implementation, by the row clause with
+    # 4 tol slack, and by the pinned column below (the unrepaired code left H_net_np = 39.999 there).
+    dict(T=[285.0, 275.0, 175.0, 174.99975, 174.9995, 165.0, 130.0, 105.0], H=[200.0, 200.0, 0.0, 19.9995, 39.999, 20.0, 20.0, 26.25],
+         expect_np=[200.0, 200.0, 0.0, 19.9995, 20.0, 20.0, 20.0, 26.25], must_be_judged=True),
+    # its mirror image above the pinch (never defective; pins the symmetric behaviour)
+    dict(T=[105.0, 80.0, 45.0, 35.0005, 35.00025, 35.0, -65.0, -75.0], H=[26.25, 20.0, 20.0, 39.999, 19.9995, 0.0, 200.0, 200.0],
+         expect_np=[26.25, 20.0, 20.0, 20.0, 19.9995, 0.0, 200.0, 200.0], must_be_judged=True),
 ]
 
 
@@ -251,6 +261,7 @@ def shrink_case(case, still_fails):
         cands = []
         for i in range(len(cur["T"])):
             c = dict(cur)
+            c.pop("expect_np", None)
             for k in ("T", "H", "hcold", "hhot"):
                 if c.get(k) is not None:
                     c[k] = cur[k][:i] + cur[k][i + 1:]
@@ -296,6 +307,14 @@ def run_suite(ctx, name, cases, expect_robust=True):
             if st["ins_above"] + st["ins_below"] + st["flat"] > 0:
                 ctx.nontrivial_case(key)
             ctx.sample(dict(suite=name, T=c["T"], H=c["H"], out_T=out["T"], out_H_np=out["NP"]), limit=5)
+        if err is None and c.get("expect_np") is not None:
+            got = out["NP"]
+            if len(got) != len(c["expect_np"]) or any(abs(a - b) > 1e-9 for a, b in zip(got, c["expect_np"])) \
+                    or (c.get("must_be_judged") and v[0] == 1):
+                ctx.fail("np-pinned-corpus", "pinned corpus case: H_net_np differs from the pinned column (or the case was skipped as fragile)",
+                         input={k: c[k] for k in ("T", "H")}, impl_output=out, predicate=f"H_net_np == {c['expect_np']}", suite=name)
+                bad += 1
+                continue
         if err is None and v[0] == 1:
             frag += 1
             continue
